@@ -2,6 +2,7 @@ import D2V.Model.Fmt
 import D2V.Model.FmtSem
 import D2V.Proofs.FmtFix
 import D2V.Proofs.FmtSemSound
+import D2V.Proofs.FmtAst
 /-!
 C04 — Formatting preserves the diagram's meaning.
 
@@ -83,45 +84,11 @@ end D2V.FmtSem
 
 namespace D2V.Fmt
 
-theorem normStr_idem (s : Str) : normStr (normStr s) = normStr s := by
-  obtain ⟨q, raw, val⟩ := s
-  cases q <;> simp only [normStr]
-  by_cases h : isReserved (lower raw) = true
-  · simp [h, isReserved_lower_fixed h]
-  · simp [h]
+/-- keyword lower-casing is idempotent on every tree (proof in Proofs/FmtAst.lean) -/
+theorem C04_lowerKeywords_idem (n : N) : lowerKeywords (lowerKeywords n) = lowerKeywords n := lowerKeywords_idem n
 
-theorem normPath_idem (p : Path) : normPath (normPath p) = normPath p := by
-  simp [normPath, List.map_map, Function.comp_def, normStr_idem]
-
-theorem normScalar_idem (s : Scalar) : normScalar (normScalar s) = normScalar s := by
-  cases s <;> simp [normScalar, normStr_idem]
-
-theorem normHead_idem (h : KeyHead) : normHead (normHead h) = normHead h := by
-  obtain ⟨amp, key, src, hops, eidx, ekey⟩ := h
-  simp only [normHead, Option.map_map, List.map_map]
-  have hp : (normPath ∘ normPath) = normPath := by funext p; simp [normPath_idem]
-  have hh : (normHop ∘ normHop) = normHop := by
-    funext x; obtain ⟨sa, da, dst⟩ := x; simp [normHop, normPath_idem]
-  simp [hp, hh]
-
-mutual
-  /-- keyword lower-casing is idempotent on every tree -/
-  theorem lowerKeywords_idem : ∀ n : N, lowerKeywords (lowerKeywords n) = lowerKeywords n
-    | .absent => by simp [lowerKeywords]
-    | .scalar s => by simp [lowerKeywords, normScalar_idem]
-    | .sub sp p => by simp [lowerKeywords, normPath_idem]
-    | .imp sp p => by simp [lowerKeywords, impPath_normPath_impPath, normPath_idem]
-    | .arr one items => by simp [lowerKeywords, lowerKeywordsL_idem items]
-    | .map one nodes => by simp [lowerKeywords, lowerKeywordsL_idem nodes]
-    | .item b v => by simp [lowerKeywords, lowerKeywords_idem v]
-    | .mnode b l v => by simp [lowerKeywords, lowerKeywords_idem v]
-    | .key h p v => by
-      simp only [lowerKeywords, normHead_idem, lowerKeywords_idem v, Option.map_map]
-      congr 1
-      cases p <;> simp [normScalar_idem]
-  theorem lowerKeywordsL_idem : ∀ l : List N, lowerKeywordsL (lowerKeywordsL l) = lowerKeywordsL l
-    | [] => by simp [lowerKeywordsL]
-    | x :: xs => by simp [lowerKeywordsL, lowerKeywords_idem x, lowerKeywordsL_idem xs]
-end
+/-- the two rewrites commute when lower-casing creates no new board node -/
+theorem C04_rewrites_commute_partial (n : N) (h : noKeyCase n = true) :
+    lowerKeywords (boardsLast n) = boardsLast (lowerKeywords n) := lower_boardsLast_comm n h
 
 end D2V.Fmt
